@@ -57,8 +57,8 @@ typedef struct {
     const void *ctx;
     int pos;
     int nper;
-    uint64_t sig[8]; /* signatures of the last periods, newest first */
-    int start[8];    /* log position where each of them started */
+    uint64_t sig[12]; /* signatures of the last periods, newest first */
+    int start[12];    /* log position where each of them started */
 } siteent;
 
 typedef struct cthr {
@@ -775,7 +775,7 @@ static cthr *libc_point(int tag, const void *obj)
  * wrote during the cycle has been restored.  It is woken when any location it
  * read during the cycle holds a different value (or the virtual clock moved,
  * if it read the clock). */
-#define CYCMAX 4
+#define CYCMAX 6
 
 static uint64_t period_signature(cthr *t, int from, int to)
 {
